@@ -386,6 +386,8 @@ impl PublishBuilder {
         log::trace!("Publish (QoS1) to {:#?}", self.packet);
 
         if tx.is_canceled() {
+            // nothing is written, the next queued sender takes the turn
+            self.shared.skip_turn();
             Err(SendPacketError::StreamingCancelled)
         } else {
             let rx =
